@@ -422,8 +422,14 @@ class SDateTime(Sym):
                 try:
                     a = self.astimezone(o.tzinfo if o.tzinfo is not None else None)
                 except OverflowError:
-                    raise Unsupported('comparison needs a zone shift beyond year 1..9999')
+                    # at the edge of the representable range: compare absolute instants instead
+                    return SBool(op(self._instant(), o._instant()))
         return SBool(op(a._key(), o._key()))
+
+    def _instant(self):
+        m = tz_minutes(self.tzinfo)
+        k = (self._minute_of_era() - (_I(m) if m is not None else 0)) * 60 + _I(self.second)
+        return k * 1000000 + _I(self.microsecond)
 
     def __lt__(s, o): return s._cmp(o, lambda a, b: a < b)
     def __le__(s, o): return s._cmp(o, lambda a, b: a <= b)
@@ -629,15 +635,22 @@ class SFrac(Sym):
         raise Unsupported('fractional float passed to timedelta')
 
     def _cmp0(self, o, op):
+        if isinstance(o, decimal.Decimal) and o.is_infinite():
+            o = float(o)
+        if isinstance(o, float) and o in (float('inf'), float('-inf')):
+            pos = o > 0
+            return SBool({_LT: pos, _LE: pos, _GT: not pos, _GE: not pos, _EQ: False, _NE: True}[op])
         if isinstance(o, (int, float)) and o == 0 and self.expr in (('x',), ('frac',)):
             n = self.num if self.expr == ('x',) else self.num % (10 ** self.k)
             return SBool(op(n, 0))
         raise Unsupported('float comparison')
 
-    def __gt__(s, o): return s._cmp0(o, lambda a, b: a > b)
-    def __lt__(s, o): return s._cmp0(o, lambda a, b: a < b)
-    def __eq__(s, o): return s._cmp0(o, lambda a, b: a == b)
-    def __ne__(s, o): return s._cmp0(o, lambda a, b: a != b)
+    def __gt__(s, o): return s._cmp0(o, _GT)
+    def __lt__(s, o): return s._cmp0(o, _LT)
+    def __ge__(s, o): return s._cmp0(o, _GE)
+    def __le__(s, o): return s._cmp0(o, _LE)
+    def __eq__(s, o): return s._cmp0(o, _EQ)
+    def __ne__(s, o): return s._cmp0(o, _NE)
 
     def __hash__(self):
         raise Unsupported('hash of symbolic float')
@@ -680,7 +693,13 @@ class SDecimal(Sym):
     _pytype = decimal.Decimal
 
     def __init__(self, neg, digits, exp):
-        self.neg, self.digits, self.exp = neg, digits, exp
+        self.neg, self.digits, self._exp = neg, digits, exp
+
+    @property
+    def exp(self):
+        if isinstance(self._exp, SInt):
+            self._exp = concretize(self._exp, -60, 60)
+        return self._exp
 
     def _coef(self):
         return digits_val(self.digits.c)
@@ -763,7 +782,10 @@ class SDecimal(Sym):
 
     def __sx_eval__(self, model):
         neg = self.neg if isinstance(self.neg, bool) else bool(model_int(model, self.neg))
-        return 'Decimal(%s%sE%d)' % ('-' if neg else '', self.digits.eval(model), self.exp)
+        e = self._exp
+        if isinstance(e, SInt):
+            e = model_int(model, e.z)
+        return 'Decimal(%s%sE%d)' % ('-' if neg else '', self.digits.eval(model), e)
 
 
 def _LT(a, b): return a < b
@@ -802,8 +824,7 @@ def parse_decimal(x):
     ex = m.group('exp')
     e = 0
     if ex is not None:
-        ev = parse_int(ex)
-        e = concretize(ev, -40, 40)
+        e = parse_int(ex)
     sign = m.group('sign')
     neg = False
     if sign is not None and len(sign.c):
@@ -812,7 +833,7 @@ def parse_decimal(x):
     # str(int(...)): strip redundant leading zeros
     while len(digs) > 1 and E.branch(_cz(digs[0]) == 48):
         digs = digs[1:]
-    return SDecimal(neg, CStr(digs), e - len(fp_.c))
+    return SDecimal(neg, CStr(digs), (e - len(fp_.c)) if fp_.c else e)
 
 
 # ------------------------------------------------------------------ strptime('%Y-%m-%d')
@@ -885,7 +906,13 @@ def _ctor_models(f, slf, args, kw):
             neg = bool(r.c and r.c[0] == 45)
             return SDecimal(neg, CStr(r.c[1:] if neg else r.c), 0)
         if isinstance(x, SBool):
-            raise Unsupported('Decimal(bool)')
+            return SDecimal(False, CStr([z3.If(x.z, 49, 48)]), 0)
+        if isinstance(x, (list, tuple)):
+            if len(x) != 3:
+                raise ValueError('argument must be a sequence of length 3')
+            raise Unsupported('Decimal(tuple)')
+        if isinstance(x, dict):
+            raise TypeError('conversion from dict to Decimal is not supported')
         raise Unsupported('Decimal(%r)' % (type(x),))
     if f is _time.strptime:
         if isinstance(args[0], CStr) and len(args) == 2 and args[1] == '%Y-%m-%d':
